@@ -14,7 +14,7 @@ FULL = [0, 1, -1, 2, -2, 3, 7, 10, (1 << 31) - 1, (1 << 31), (1 << 31) + 1, -(1 
         F(1, 10 ** 20),
         0.0, -0.0, 0.5, 1.5, 2.5, -3.5, 1e21, 1e-7, 9007199254740992.0, 9007199254740994.0, 5e-324,
         1.7976931348623157e308, math.inf, -math.inf, math.nan, 4294967296.0, 9.223372036854775808e18]
-QUICK = [0, 1, -1, 2, 7, (1 << 31) - 1, (1 << 62), (1 << 63) - 1, -(1 << 63), 1 << 64, -10 ** 30,
+QUICK = [0, 1, -1, 2, 7, (1 << 31) - 1, (1 << 62), (1 << 63) - 1, -(1 << 63), 1 << 63, 1 << 64, -10 ** 30,
          F(1, 2), F(-1, 3), F((1 << 31) - 1, 2), F((1 << 64) + 1, 3),
          0.0, -0.0, 1.5, 9007199254740992.0, 5e-324, math.inf, math.nan, 9.223372036854775808e18]
 
